@@ -657,7 +657,10 @@ def to_pivot_column(tokens):
 def to_union_call(tokens):
     unions = tokens["union"]
     if isinstance(unions, dict):
-        return unions
+        # A PARENTHESISED QUERY; CLAUSES WRITTEN AFTER THE PARENTHESES BELONG TO THE WHOLE, NOT TO NOBODY
+        if not any(tokens[k] for k in ("orderby", "offset", "limit", "fetch", "locking")):
+            return unions
+        output = {"from": unions}
     elif unions.type.parser_name == "unordered_sql":
         output = dict(unions)  # REMOVE THE Group()
         if not output:
